@@ -1,3 +1,6 @@
 pub mod basic;
 pub mod skip;
 pub mod utf8;
+pub mod callbacks;
+pub mod literal;
+pub mod twins;
